@@ -128,12 +128,27 @@ func (m *M) Counter(name string) int64 {
 }
 
 func (m *M) Note(name string, v interface{}) {
+	v = jsonSafe(v)
 	m.mu.Lock()
 	m.notes[name] = v
 	m.mu.Unlock()
 }
 
+// jsonSafe snapshots v as JSON now (the caller may go on mutating it).  A value encoding/json refuses — a NaN or an
+// infinity a monitor wants to report, a cycle — is kept as its %+v text: the result file must stay readable whatever
+// the library returned.
+func jsonSafe(v interface{}) interface{} {
+	if v == nil {
+		return nil
+	}
+	if b, err := json.Marshal(v); err == nil {
+		return json.RawMessage(b)
+	}
+	return fmt.Sprintf("%+v", v)
+}
+
 func (m *M) Sample(v interface{}) {
+	v = jsonSafe(v)
 	m.mu.Lock()
 	if len(m.samples) < m.maxSamples {
 		m.samples = append(m.samples, v)
@@ -192,11 +207,7 @@ func (m *M) Violation(sig, detail string, replay interface{}) {
 		detail = detail[:1500] + "…"
 	}
 	// snapshot the replay data now: the caller may go on mutating its map
-	if replay != nil {
-		if b, err := json.Marshal(replay); err == nil {
-			replay = json.RawMessage(b)
-		}
-	}
+	replay = jsonSafe(replay)
 	m.viol[sig] = &Violation{Sig: sig, Detail: detail, Replay: replay, Count: 1}
 	m.violOrder = append(m.violOrder, sig)
 }
@@ -377,7 +388,10 @@ func (m *M) Finish(t testing.TB) {
 		}
 	}
 	r.Unmet = append(r.Unmet, m.inconcl...)
-	b, _ := json.MarshalIndent(r, "", " ")
+	b, merr := json.MarshalIndent(r, "", " ")
+	if merr != nil {
+		t.Fatalf("cannot encode the result: %v", merr)
+	}
 	name := filepath.Join(m.outDir, fmt.Sprintf("result.%s.%s.json", m.Property, m.Part))
 	if err := os.WriteFile(name, b, 0o644); err != nil {
 		t.Fatalf("cannot write result: %v", err)
